@@ -45,6 +45,9 @@ def step (toks : List String) (impl : String) : Res :=
   | ["retainenc", what, _] =>
     -- the joined stream kept from one call still is that stream after the next call
     { model := "changed=0", monitor := if impl == "changed=0" then [] else ["join_result_stable"], tags := ["retainenc", what], nontrivial := false }
+  | ["concframing", _, _] =>
+    -- joining and splitting from several goroutines at once: every call gives what it gives alone (the model is a function)
+    { model := "diffs=0", monitor := if impl == "diffs=0" then [] else ["same_result_when_called_concurrently"], tags := ["concframing"] }
   | ["hugeenc", lens] =>
     -- items too large to spell out (all-zero values of the given lengths): the stream's size and every length prefix come from
     -- the lengths alone (`Fr.encContents_length`), the values are compared by the harness
